@@ -490,7 +490,7 @@ def direct_mappers(case, ds, forms):
             elif st == "sequence_numerical":
                 m = TM.NumericalSequenceTensorMapper()
             elif st == "timestamp":
-                fmt = None if c["fmt"] in (None, "datetime64") else c["fmt"]
+                fmt = M.time_format_of(c)
                 m = TM.TimestampTensorMapper(format=fmt) if kwform else TM.TimestampTensorMapper(fmt)
             elif st == "embedding":
                 m = TM.EmbeddingTensorMapper()
@@ -716,6 +716,8 @@ def stats(cases, obss):
             if col.get("int_tokens"):
                 d["int_token_columns"] = d.get("int_token_columns", 0) + 1
                 d["minus_one_columns"] = d.get("minus_one_columns", 0) + (1 if minus_one_situation(col) else 0)
+            if col["stype"] == "timestamp" and col["fmt"] == "datetime64" and col.get("cfg_fmt"):
+                d["datetime64_with_configured_format"] = d.get("datetime64_with_configured_format", 0) + 1
             if col["stype"] == "multicategorical":
                 k = "multicat_sep" if col["sep"] is not None else "multicat_list"
                 d[k] = d.get(k, 0) + 1
@@ -829,7 +831,7 @@ def sanity(cases, obss):
     if not any(k.endswith("/target") for k in d.get("sibling_dtypes", {})):
         probs.append("sibling history with an integer-coded target never drawn")
     for k in ("multicat_sep", "multicat_list", "int_token_columns", "calendar_instants", "malformed", "sibling",
-              "family", "family_embedding_after_child", "unlabeled_target_frames"):
+              "family", "family_embedding_after_child", "unlabeled_target_frames", "datetime64_with_configured_format"):
         if d.get(k, 0) == 0:
             probs.append(f"{k} never drawn")
     for k in M.missing_forms(d, extra=["cfg=single", "cfg=dict"]):
